@@ -292,8 +292,11 @@ def existing_fields_case(ctx, work):
     for ri, rec in enumerate(spec["records"]):
         for si, s in enumerate(rec["samples"]):
             for name, arr in (("LAA", laa), ("LPL", lpl)):
-                exp = s[name] + [FILL] * (arr.shape[2] - len(s[name]))
-                got = [int(x) for x in arr[ri, si]]
+                if arr.ndim == 2:        # every value has one element: no inner dimension
+                    exp, got = s[name], [int(arr[ri, si])]
+                else:
+                    exp = s[name] + [FILL] * (arr.shape[2] - len(s[name]))
+                    got = [int(x) for x in arr[ri, si]]
                 if got != exp:
                     ctx.violate(f"existing {name} not respected at [{ri},{si}]: {got} != {exp}", {"vcf_spec": spec}, exp, got)
                     return
